@@ -20,16 +20,20 @@ OBJECTS = {
     "et205": ("ET", "ETU", 8899, "v2", 47547), "et745": ("ET", "ETT", 8899, "v2", 47547), "et205tcp": ("ET", "ETU", 502, "v2", 47547),
     "et745tcp": ("ET", "ETT", 502, "v2", 47547), "es_v1": ("ES", "ESU", 8899, "v1", 1793), "es_v2": ("ES", "ESU", 8899, "v2", 47547),
     "dt3": ("DT", "DTU", 8899, "", 0), "dt1": ("DT", "DSN", 8899, "", 0),
+    # same model tag, other rated-power class (the capability set depends on both)
+    "et205mid": ("ET", "ETU", 8899, "v2", 47547), "et745big": ("ET", "ETT", 8899, "v2", 47547), "et205big": ("ET", "ETU", 502, "v2", 47547),
 }
+RATED = {"et205mid": 15000, "et745big": 25000, "et205big": 29900}
 PAIRS = [("et205", "et745"), ("et205", "es_v1"), ("es_v1", "es_v2"), ("et205tcp", "et745tcp"), ("et745", "et745"),
-         ("dt3", "dt1"), ("et745", "es_v2"), ("et205", "et205")]
+         ("dt3", "dt1"), ("et745", "es_v2"), ("et205", "et205"), ("et205", "et205mid"), ("et745big", "et745"), ("et205big", "et205tcp"),
+         ("et205mid", "et205")]
 
 
 def obj_spec(name: str, rnd: random.Random, prior: str) -> dict:
     fam, tag, port, fmt, g1 = OBJECTS[name]
     serial = serial_for(tag) if fam != "ES" else "95048ESU000W0000"
-    regs = device_regs(fam, serial, 10000)
-    base = {"ET": [(35100, 125), (37000, 24), (36000, 45), (35301, 61)], "DT": [(30100, 73), (30195, 15)]}.get(fam, [])
+    regs = device_regs(fam, serial, RATED.get(name, 10000))
+    base = {"ET": [(35100, 125), (37000, 24), (36000, 125 if name in RATED else 45), (35301, 61), (39000, 22 if name in RATED else 0)], "DT": [(30100, 73), (30195, 15)]}.get(fam, [])
     for first, count in base:
         for a in range(first, first + count):
             regs[a] = rnd.randrange(65536)
@@ -75,6 +79,14 @@ def shuffles(n1: int, n2: int) -> list[tuple[int, ...]]:
     return out
 
 
+def dshuffles(n1: int, n2: int, quick: bool, rnd: random.Random) -> list[tuple[int, ...]]:
+    sh = shuffles(n1, n2)
+    if quick and len(sh) > 6:
+        keep = [sh[0], sh[-1]]
+        sh = keep + rnd.sample(sh[1:-1], 4)
+    return sh
+
+
 def run_shuffle(job: dict) -> dict:
     """Runs solo(s1), solo(s2) and every requested interleaving; returns the per-object call records."""
     from . import inv_driver
@@ -82,12 +94,17 @@ def run_shuffle(job: dict) -> dict:
     def canon(v):
         return json.dumps(inv_driver.proj(v), sort_keys=True, default=str)
 
-    def records(calls: list[dict]) -> list[list[dict]]:
+    def records(calls: list[dict], only: int | None = None) -> list[list[dict]]:
         # every run starts from the module state as imported: the library keeps mutable state in class-level objects
-        return engine.forked(records_here, calls)
+        return engine.forked(records_here, (calls, only))
 
-    def records_here(calls: list[dict]) -> list[list[dict]]:
-        prog = {"inv": job["inv"], "calls": [{"o": 0, "api": "read_device_info"}, {"o": 1, "api": "read_device_info"}] + calls}
+    def records_here(arg) -> list[list[dict]]:
+        calls, only = arg
+        if only is None:
+            prog = {"inv": job["inv"], "calls": calls}
+        else:
+            # "alone": the other object does not even exist in the process
+            prog = {"inv": [job["inv"][only]], "calls": [dict(c, o=0) for c in calls]}
         tr = inv_driver.run_program(prog)
         if tr["status"] != "ok":
             raise RuntimeError("shuffle program did not finish")
@@ -111,10 +128,12 @@ def run_shuffle(job: dict) -> dict:
                     cur["val"] = cur["val_end"] = f"{ev.get('exc')}:{ev.get('msg')}"
                 per[cur["o"]].append(cur)
                 cur = None
-        return [p[1:] for p in per]       # without read_device_info
+        return per
 
-    s = [[dict(c, o=0) for c in job["s1"]], [dict(c, o=1) for c in job["s2"]]]
-    solo = [records(s[0])[0], records(s[1])[1]]
+    # each sequence starts with the object's own read_device_info: the shuffles also interleave those
+    di = {"api": "read_device_info"}
+    s = [[dict(c, o=0) for c in [di] + job["s1"]], [dict(c, o=1) for c in [di] + job["s2"]]]
+    solo = [records(s[0], 0)[0], records(s[1], 1)[0]]
     out = []
     for sh in job["shuffles"]:
         idx = [0, 0]
@@ -126,49 +145,10 @@ def run_shuffle(job: dict) -> dict:
         for o in (0, 1):
             out.append({"o": o, "shuffle": list(sh), "solo": solo[o], "tau": tau[o],
                         "fr": "tcp" if job["inv"][o].get("port", 8899) == 502 else "rtu"})
-    return {"job": {k: job[k] for k in ("pair", "s1", "s2", "priors")}, "cases": out}
+    return {"job": {k: job[k] for k in ("pair", "s1", "s2", "priors", "inv")}, "cases": out}
 
 
-def check(prop: str, tier: str, seed: int) -> int:
-    run = Run(prop, tier, seed, "model_checking")
-    quick = tier == "quick"
-    rnd = random.Random(seed)
-    run.cov["rule"] = ("pairs of inverter objects (same / different family, platform, transport) on two simulated inverters with different "
-                       "register contents; two call sequences of length <= 3 (quick) / <= 4 (thorough) drawn from read_runtime_data, "
-                       "read_setting / write_setting of several kinds incl. eco-mode groups, set_operation_mode, get_operation_mode; ALL shuffles "
-                       "of the two sequences are executed, plus both sequences alone; TraceShuffle.tla compares per object the projection of the "
-                       "interleaved run with the solo run and every returned value with its content at the end of the run; non-trivial = a "
-                       "shuffle that really interleaves; distinct = distinct (pair, sequences, shuffle)")
-    run.assumptions = ["interleaving is at call granularity (the statement speaks of interleavings of calls); values are compared through a canonical "
-                       "projection (eco-mode groups: all fields)", "TLC, SANY and the CommunityModules are trusted"]
-    jobs = []
-    L = 3 if quick else 4
-    nseq = 10 if quick else 60
-    for (a, b) in PAIRS:
-        for _ in range(nseq):
-            l1, l2 = rnd.randint(1, L), rnd.randint(1, L)
-            s1 = [rnd.choice(alphabet(a)) for _ in range(l1)]
-            s2 = [rnd.choice(alphabet(b)) for _ in range(l2)]
-            pa = rnd.choice(["zeros", "charge247", "partial", "garbage", "charge247_745", "unset", "peak"])
-            pb = rnd.choice(["zeros", "charge247", "partial", "garbage", "charge247_745", "unset", "peak"])
-            sh = shuffles(l1, l2)
-            if quick and len(sh) > 8:
-                sh = rnd.sample(sh, 8)
-            jobs.append({"pair": [a, b], "s1": s1, "s2": s2, "priors": [pa, pb], "shuffles": sh,
-                         "inv": [obj_spec(a, rnd, pa), obj_spec(b, rnd, pb)]})
-    # directed jobs: short sequences around the eco-mode groups with every combination of prior group contents, all shuffles
-    rd = {"api": "read_setting", "args": ["eco_mode_1"]}
-    dseqs = [[rd], [{"api": "set_operation_mode", "args": [{"opmode": 98}, 40, 60]}], [rd, {"api": "get_operation_mode"}],
-             [{"api": "set_operation_mode", "args": [{"opmode": 99}, 70, 100]}, rd]]
-    dpri = ["zeros", "charge247", "charge247_745", "garbage", "peak"] if quick else list(V2_PRIORS)
-    for (a, b) in [("et205", "et745"), ("et745", "et205"), ("es_v2", "es_v2"), ("es_v1", "es_v1"), ("et745tcp", "et205tcp")]:
-        for s1 in dseqs:
-            for s2 in (dseqs[1:2] if quick else dseqs):
-                for pa in dpri:
-                    for pb in (["garbage", "zeros"] if quick else dpri):
-                        jobs.append({"pair": [a, b], "s1": s1, "s2": s2, "priors": [pa, pb], "shuffles": shuffles(len(s1), len(s2)),
-                                     "inv": [obj_spec(a, rnd, pa), obj_spec(b, rnd, pb)]})
-    res = engine.parallel_map("harness.checks_shuffle", "run_shuffle", jobs, procs=16, chunk=2)
+def judge_results(run: Run, res: list[dict]) -> tuple[list, list, set]:
     # batch for TLC
     cases = []
     src = []
@@ -215,10 +195,64 @@ def check(prop: str, tier: str, seed: int) -> int:
             other = OBJECTS[job["pair"][1 - o]][0]
             detail = {"api": api, "family": fam, "other": other}
             run.violation(cl, detail, {"shufflejob": {"pair": job["pair"], "s1": job["s1"], "s2": job["s2"], "priors": job["priors"],
-                                                      "shuffle": list(sh), "object": o}})
+                                                      "shuffle": list(sh), "object": o, "inv": job["inv"]}})
+    return cases, src, inter
+
+
+def check(prop: str, tier: str, seed: int) -> int:
+    run = Run(prop, tier, seed, "model_checking")
+    quick = tier == "quick"
+    rnd = random.Random(seed)
+    run.cov["rule"] = ("pairs of inverter objects (same / different family, platform, transport) on two simulated inverters with different "
+                       "register contents; two call sequences of length <= 3 (quick) / <= 4 (thorough) drawn from read_runtime_data, "
+                       "read_setting / write_setting of several kinds incl. eco-mode groups, set_operation_mode, get_operation_mode; ALL shuffles "
+                       "of the two sequences are executed, plus both sequences alone; TraceShuffle.tla compares per object the projection of the "
+                       "interleaved run with the solo run and every returned value with its content at the end of the run; non-trivial = a "
+                       "shuffle that really interleaves; distinct = distinct (pair, sequences, shuffle)")
+    run.assumptions = ["interleaving is at call granularity (the statement speaks of interleavings of calls); values are compared through a canonical "
+                       "projection (eco-mode groups: all fields)", "TLC, SANY and the CommunityModules are trusted"]
+    jobs = []
+    L = 3 if quick else 4
+    nseq = 10 if quick else 60
+    for (a, b) in PAIRS:
+        for _ in range(nseq):
+            l1, l2 = rnd.randint(1, L), rnd.randint(1, L)
+            s1 = [rnd.choice(alphabet(a)) for _ in range(l1)]
+            s2 = [rnd.choice(alphabet(b)) for _ in range(l2)]
+            pa = rnd.choice(["zeros", "charge247", "partial", "garbage", "charge247_745", "unset", "peak"])
+            pb = rnd.choice(["zeros", "charge247", "partial", "garbage", "charge247_745", "unset", "peak"])
+            sh = shuffles(l1 + 1, l2 + 1)
+            if quick and len(sh) > 8:
+                sh = rnd.sample(sh, 8)
+            jobs.append({"pair": [a, b], "s1": s1, "s2": s2, "priors": [pa, pb], "shuffles": sh,
+                         "inv": [obj_spec(a, rnd, pa), obj_spec(b, rnd, pb)]})
+    # directed jobs: short sequences around the eco-mode groups with every combination of prior group contents, all shuffles
+    rd = {"api": "read_setting", "args": ["eco_mode_1"]}
+    dseqs = [[rd], [{"api": "set_operation_mode", "args": [{"opmode": 98}, 40, 60]}], [rd, {"api": "get_operation_mode"}],
+             [{"api": "set_operation_mode", "args": [{"opmode": 99}, 70, 100]}, rd]]
+    dpri = ["zeros", "charge247", "charge247_745", "garbage", "peak"] if quick else list(V2_PRIORS)
+    for (a, b) in [("et205", "et745"), ("et745", "et205"), ("es_v2", "es_v2"), ("es_v1", "es_v1"), ("et745tcp", "et205tcp")]:
+        for s1 in dseqs:
+            for s2 in (dseqs[1:2] if quick else dseqs):
+                for pa in dpri:
+                    for pb in (["garbage", "zeros"] if quick else dpri):
+                        jobs.append({"pair": [a, b], "s1": s1, "s2": s2, "priors": [pa, pb], "shuffles": dshuffles(len(s1) + 1, len(s2) + 1, quick, rnd),
+                                     "inv": [obj_spec(a, rnd, pa), obj_spec(b, rnd, pb)]})
+    res = engine.parallel_map("harness.checks_shuffle", "run_shuffle", jobs, procs=16, chunk=2)
+    cases, src, inter = judge_results(run, res)
     run.cov["distinct_nontrivial"] = len(inter)
     run.cov["traces_validated_against_impl"] = len(cases)
     if cases:
         run.cov["samples"].append({"pair": src[0][0]["pair"], "s1": [c["api"] for c in src[0][0]["s1"]],
                                    "s2": [c["api"] for c in src[0][0]["s2"]], "shuffle": src[0][2]})
     return run.finish()
+
+
+def replay_job(prop: str, obj: dict, path: str) -> int:
+    j = obj["replay"]["shufflejob"]
+    run = Run(prop, "replay", 0, "model_checking")
+    job = {"pair": j["pair"], "s1": j["s1"], "s2": j["s2"], "priors": j["priors"], "inv": j["inv"], "shuffles": [tuple(j["shuffle"])]}
+    judge_results(run, [run_shuffle(job)])
+    for v in run.violations:
+        print(f"VIOLATION property={prop} replay={path} clause={v['clause']}")
+    return 1 if run.violations else 0
